@@ -286,6 +286,11 @@ class Engine:
             if sl.lower is None and sl.upper is None and isinstance(sl.step, ast.UnaryOp) and isinstance(sl.step.op, ast.USub) \
                     and isinstance(sl.step.operand, ast.Constant) and sl.step.operand.value == 1 and isinstance(base.t, TSeq) and getattr(self.w, 'seq_reverse', None):
                 return Sym(base.t, self.w.seq_reverse(base.term))
+            if sl.upper is None and sl.step is None and sl.lower is not None and isinstance(base.t, TSeq):       # seq[lo:]
+                lo = self.ev(sl.lower, st)
+                if lo.t is TInt:
+                    self.oblige(st, 'slice lower bound is not negative (negative bounds count from the end: not modelled)', lo.term >= 0, e.lineno)
+                    return Sym(base.t, SubSeq(base.term, lo.term, Length(base.term) - lo.term))       # empty when lo >= len (seq.extract with a length <= 0)
             raise Unsupported(f'slice (line {e.lineno})')
         k = self.ev(e.slice, st)
         if is_map(base.t):
@@ -370,6 +375,10 @@ class Engine:
                 cn = e.args[1].id if isinstance(e.args[1], ast.Name) else (e.args[1].attr if isinstance(e.args[1], ast.Attribute) and isinstance(e.args[1].value, ast.Name) and e.args[1].value.id not in st.env else None)
                 if cn in self.w.isinstance_preds: return Sym(TBool, self.w.isinstance_preds[cn](self.ev(e.args[0], st)))
             if n in self.w.identity_fns: return self.ev(e.args[0], st)
+            if n == 'len' and len(e.args) == 1:
+                a = self.ev(e.args[0], st)
+                if isinstance(a.t, TSeq): return Sym(TInt, Length(a.term))
+                raise Unsupported(f'len() of {a.t} outside a comparison with a constant (line {e.lineno})')
             if n in ('set', 'list', 'deque') and len(e.args) == 1:
                 a = self.ev(e.args[0], st)
                 if n == 'deque' and isinstance(a.t, TBag): return a
@@ -676,9 +685,16 @@ class Engine:
                     else:
                         tt = TTuple(x.t, val.t); self.bind_target(s.target, tt.make(_0=x, _1=val), env)
                 return dom, binder
+        if isinstance(it, ast.Call) and isinstance(it.func, ast.Name) and it.func.id == 'enumerate' and len(it.args) == 1 and not it.keywords \
+                and isinstance(s.target, ast.Tuple) and len(s.target.elts) == 2:
+            coll = self.ev(it.args[0], st)
+            if not isinstance(coll.t, TSeq): raise Unsupported(f'enumerate over {coll.t} (line {s.lineno})')
+            def binder(x, env, idx=None):
+                self.bind_target(s.target.elts[0], idx, env); self.bind_target(s.target.elts[1], x, env)
+            return coll, binder
         coll = self.ev(it, st)
         if is_map(coll.t): coll = coll.t.get(coll, 'dom')
-        return coll, (lambda x, env: self.bind_target(s.target, x, env))
+        return coll, (lambda x, env, idx=None: self.bind_target(s.target, x, env))
 
     def target_names(self, t):
         return {n.id for n in ast.walk(t) if isinstance(n, ast.Name)}
@@ -718,7 +734,11 @@ class Engine:
             self.oblige(st, f'loop {ordinal} inv-entry', INV(st, Sym(TInt, IntVal(0))), s.lineno)
             it = st.copy(); self.havoc(it, mod - tn, f'L{ordinal}')
             i = TInt.fresh('idx'); it.pc += [i.term >= 0, i.term < Length(coll.term), INV(it, i)]
-            it.env['$done' + ordinal] = i; binder(Sym(t.elem, coll.term[i.term]), it.env)
+            it.env['$done' + ordinal] = i
+            elem = coll.term[i.term]
+            if is_app_of(coll.term, Z3_OP_SEQ_EXTRACT):       # for x in seq[lo:]: the element is seq[lo + idx] (lo >= 0 is an obligation of the slice); avoids seq.extract under quantifiers
+                elem = coll.term.arg(0)[coll.term.arg(1) + i.term]; it.pc.append(elem == coll.term[i.term])
+            binder(Sym(t.elem, elem), it.env, i)
             finish(self.ex_block(s.body, it, path), lambda e_st: INV(e_st, Sym(TInt, i.term + 1)))
             results.append((exit_state(lambda x: INV(x, Sym(TInt, Length(coll.term)))), 'normal')); return results
         if isinstance(t, (TSet, TBag)):
@@ -750,6 +770,9 @@ class Engine:
             env['$yield'] = c.ret.empty()
         o = NS(old); self.entry = old
         if c.requires is not None: st.pc.append(unwrap(c.requires(o)))
+        for (lname, from_axioms, formula) in getattr(self.w, 'derived', []):        # axioms that are consequences of other axioms: re-proved in isolation for every function that may use them
+            ob = Obligation(key, f'derived axiom {lname}', list(from_axioms), unwrap(formula), fn.lineno); ob.isolated = True
+            self.obls.append(ob)
         if c.entry_lemmas is not None:
             for (lname, local_axioms, formula) in c.entry_lemmas(o):
                 ob = Obligation(key, f'entry lemma {lname}', list(st.pc[:1]) + list(local_axioms), unwrap(formula), fn.lineno); ob.isolated = True
